@@ -593,7 +593,7 @@ func (f *FunctionCall) SQL() string {
 	}
 	sb := getBuilder()
 	defer putBuilder(sb)
-	sb.WriteString(f.Name)
+	sb.WriteString(functionNameSQL(f.Name))
 	sb.WriteString("(")
 	if f.Distinct {
 		sb.WriteString("DISTINCT ")
@@ -624,6 +624,18 @@ func (f *FunctionCall) SQL() string {
 		sb.WriteString(")")
 	}
 	return sb.String()
+}
+
+// functionNameSQL quotes a function name that cannot be written bare (a quoted
+// name such as "My Func"). Keyword-spelled names are left alone: COUNT, LEFT,
+// REPLACE and the like are ordinary function names.
+func functionNameSQL(name string) string {
+	for i, r := range name {
+		if r != '_' && r != '.' && !unicode.IsLetter(r) && (!unicode.IsDigit(r) || i == 0) {
+			return `"` + strings.ReplaceAll(name, `"`, `""`) + `"`
+		}
+	}
+	return name
 }
 
 func (e *ExtractExpression) SQL() string {
